@@ -30,8 +30,148 @@ ASSUMPTIONS = ["models and theorems are about the value (vertex list, closedness
                "with_insertions is modelled WITH fixes/C09-insertion-index-maps.diff applied"]
 
 
+# ---------------------------------------------------------------------------------------------------------
+# (T) traced kernels: the REAL Polyline methods run on symbolic vertices (object arrays go through the constructor's
+# np.copy unchanged); outputs are copies / permutations of the input symbols plus concrete integer tables.
+def _E(n):
+    return {"shape": [n, 3], "data": ["e"] * (3 * n)}
+
+
+def _I(xs, shape=None):
+    return {"shape": shape or [len(xs)], "dtype": "int64", "data": list(xs)}
+
+
+def _vs(name, n, start=0):
+    return "[%s]" % "; ".join("V3 %s%d %s%d %s%d" % (name, 3 * i, name, 3 * i + 1, name, 3 * i + 2) for i in range(start, start + n))
+
+
+def _nats(xs):
+    return "[%s]%%nat" % "; ".join(str(x) for x in xs)
+
+
+_REFL = "Proof. intros. repeat split; reflexivity. Qed."
+
+
 def kernels():
-    return []
+    from common import Kernel
+    from polliwog import Polyline
+
+    imp = [("PW.model", "M_polyline_base"), ("PW.model", "M_polyline_spec"), ("PW.model", "M_polyline_ops")]
+    V3 = [[1.0, 5.0, 3.0], [4.0, 2.0, 6.0], [7.0, 8.0, 0.5]]
+    V4 = V3 + [[-1.0, 9.0, 2.5]]
+    ks = []
+
+    def K(name, inputs, call, lemma, structure, **kw):
+        ks.append(Kernel(name, inputs, call, lemma, imports=imp, expect_structure=structure, **kw))
+
+    # edges, num_v / num_e / len for open and closed chains (concrete tables only)
+    def edges(v):
+        out = []
+        for n in (0, 1, 3):
+            for c in (False, True):
+                p = Polyline(v[:n], is_closed=c)
+                out.append((p.e, len(p), p.num_v, p.num_e))
+        return tuple(out)
+
+    def e_tab(n, c):
+        e = ref_edges(n, c)
+        return {"tuple": [_I([x for ab in e for x in ab], [len(e), 2]), n, n, len(e)]}
+
+    def e_claim(n, c):
+        e = ref_edges(n, c)
+        b = "true" if c else "false"
+        return ("edges_for %d %s = [%s]%%nat /\\ c_len (MkPolyline (F:=R) %s %s) = (%d, %d, %d)%%nat" % (
+            n, b, "; ".join("(%d, %d)" % (a, bb) for a, bb in e), _vs("v", n), b, n, n, len(e)))
+
+    K("edges", {"v": V3}, edges,
+      "Lemma {T}_ok : forall {vars} : R,\n  " + " /\\\n  ".join(e_claim(n, c) for n in (0, 1, 3) for c in (False, True)) + ".\n" + _REFL,
+      {"tuple": [e_tab(n, c) for n in (0, 1, 3) for c in (False, True)]})
+
+    P3o = "(MkPolyline %s false)" % _vs("v", 3)
+    P3c = "(MkPolyline %s true)" % _vs("v", 3)
+    P4o = "(MkPolyline %s false)" % _vs("v", 4)
+    P4c = "(MkPolyline %s true)" % _vs("v", 4)
+
+    K("flipped", {"v": V3}, lambda v: (Polyline(v).flipped().v, Polyline(v, is_closed=True).flipped_if(True).v, Polyline(v).flipped_if(False).v),
+      "Lemma {T}_ok : forall {vars} : R, {T} ROps {vars} = flatv (pv (c_flipped %s)) ++ flatv (pv (c_flipped %s)) ++ flatv (pv %s).\n%s"
+      % (P3o, P3c, P3o, _REFL), {"tuple": [_E(3), _E(3), _E(3)]})
+
+    def rolled(v):
+        p = Polyline(v, is_closed=True)
+        out = []
+        for k in (1, -1, 4):
+            r, m = p.rolled(k, ret_edge_mapping=True)
+            out.append((r.v, m))
+        return tuple(out)
+
+    K("rolled", {"v": V3}, rolled,
+      "Lemma {T}_ok : forall {vars} : R,\n"
+      "  {T} ROps {vars} = fst (out_rolled (c_rolled %s 1)) ++ fst (out_rolled (c_rolled %s (-1))) ++ fst (out_rolled (c_rolled %s 4)) /\\\n"
+      "  snd (out_rolled (c_rolled %s 1)) = %s /\\ snd (out_rolled (c_rolled %s (-1))) = %s /\\ snd (out_rolled (c_rolled %s 4)) = %s.\n%s"
+      % (P3c, P3c, P3c, P3c, _nats([1, 2, 0]), P3c, _nats([2, 0, 1]), P3c, _nats([1, 2, 0]), _REFL),
+      {"tuple": [{"tuple": [_E(3), _I([1, 2, 0])]}, {"tuple": [_E(3), _I([2, 0, 1])]}, {"tuple": [_E(3), _I([1, 2, 0])]}]})
+
+    K("sliced", {"v": V4},
+      lambda v: (Polyline(v).sliced_at_indices(1, 3).v, Polyline(v, is_closed=True).sliced_at_indices(1, 3).v,
+                 Polyline(v, is_closed=True).sliced_at_indices(3, 2).v, Polyline(v, is_closed=True).sliced_at_indices(2, 2).v),
+      "Lemma {T}_ok : forall {vars} : R, {T} ROps {vars} = out_poly (c_sliced %s 1 3) ++ out_poly (c_sliced %s 1 3) ++ "
+      "out_poly (c_sliced %s 3 2) ++ out_poly (c_sliced %s 2 2).\n%s" % (P4o, P4c, P4c, P4c, _REFL),
+      {"tuple": [_E(2), _E(2), _E(3), _E(4)]})
+
+    K("sectioned", {"v": V4},
+      lambda v: ([x.v for x in Polyline(v).sectioned(np.array([1, 2]))], [x.v for x in Polyline(v).sectioned(np.array([], dtype=np.int64), copy_vs=True)]),
+      "Lemma {T}_ok : forall {vars} : R, {T} ROps {vars} = out_polys (c_sectioned %s [1; 2]%%Z) ++ out_polys (c_sectioned %s []).\n%s"
+      % (P4o, P4o, _REFL), {"tuple": [{"tuple": [_E(2), _E(2), _E(2)]}, {"tuple": [_E(4)]}]})
+
+    K("join", {"v": V4},
+      lambda v: Polyline.join(Polyline(v[:1]), Polyline(v[1:]), Polyline(v[:0]), Polyline(v[2:4]), is_closed=True).v,
+      "Lemma {T}_ok : forall {vars} : R, {T} ROps {vars} = out_poly (c_join [MkPolyline %s false; MkPolyline %s false; "
+      "MkPolyline [] false; MkPolyline %s false] true).\n%s" % (_vs("v", 1), _vs("v", 3, 1), _vs("v", 2, 2), _REFL), _E(6))
+
+    # with_insertions(ret_new_indices=True): distinct, repeated, both ends, index 0 + end + negative
+    for name, idx, closed in (("insert_distinct", [2, 1], False), ("insert_repeated", [1, 1, 1], True),
+                              ("insert_ends", [3, 0, 3], False), ("insert_zero_negative", [0, -1, 0], True)):
+        kk = len(idx)
+        ref = ref_step([(V3, closed)], {"op": "insert", "a": 0, "pts": [[0.0] * 3] * kk, "idx": idx})[0]
+
+        def ins(v, q, idx=idx, closed=closed):
+            r, om, im = Polyline(v, is_closed=closed).with_insertions(q, np.array(idx), ret_new_indices=True)
+            return (r.v, om, im, Polyline(v, is_closed=closed).with_insertions(q, np.array(idx)).v)
+
+        call = "(c_insert %s %s [%s]%%Z)" % (P3c if closed else P3o, _vs("q", kk), "; ".join("(%d)" % i for i in idx))
+        K(name, {"v": V3, "q": [[10.0 + j, 0.25, -1.0 * j] for j in range(kk)]}, ins,
+          "Lemma {T}_ok : forall {vars} : R,\n  {T} ROps {vars} = fst (out_insert %s) ++ fst (out_insert %s) /\\\n"
+          "  snd (out_insert %s) = (%s, %s).\n%s" % (call, call, call, _nats(ref["orig"]), _nats(ref["ins"]), _REFL),
+          {"tuple": [_E(3 + kk), _I(ref["orig"]), _I(ref["ins"]), _E(3 + kk)]})
+
+    decide = ("repeat (match goal with\n"
+              "    | |- context [Rleb ?a ?b] => first [rewrite (proj2 (Rleb_true a b)) by lra | rewrite (proj2 (Rleb_false a b)) by lra]\n"
+              "    | |- context [Rltb ?a ?b] => first [rewrite (proj2 (Rltb_true a b)) by lra | rewrite (proj2 (Rltb_false a b)) by lra]\n"
+              "    end; cbv iota)")
+    K("bounding_box", {"v": V3}, lambda v: (lambda b: (b.origin, b.size))(Polyline(v).bounding_box),
+      "Lemma {T}_ok : forall {vars} : R, {T}_path ROps {vars} -> {T} ROps {vars} = out_box (c_bbox ROps %s).\n"
+      "Proof. intros {vars} Hpath. unfold {T}_path in Hpath; rops. path_facts Hpath. unfold {T}.\n"
+      "  cbv [out_box c_bbox pv fold_left vmin vmax nmin nmax vsub vlist vx vy vz app]; rops.\n  %s.\n  reflexivity. Qed."
+      % (P3o, decide), {"tuple": [{"shape": [3], "data": ["e"] * 3}, {"shape": [3], "data": ["e"] * 3}]}, perturb=1e-9)
+
+    K("apex", {"v": V3, "a": [1.0, -2.0, 0.5]}, lambda v, a: Polyline(v).apex(a),
+      "Lemma {T}_ok : forall {vars} : R, {T}_path ROps {vars} -> {T} ROps {vars} = out_point (c_apex ROps %s (V3 a0 a1 a2)).\n"
+      "Proof. intros {vars} Hpath. unfold {T}_path in Hpath; rops. path_facts Hpath. unfold {T}.\n"
+      "  cbv [out_point c_apex argmax pv map fold_left argmax_step vdot vx vy vz]; rops.\n  %s.\n  reflexivity. Qed."
+      % (P3o, decide), {"shape": [3], "data": ["e"] * 3}, perturb=1e-9)
+
+    # index_of_vertex: first of two matching rows; the tolerance literal the code uses is the double 1e-08
+    atol = Fr(1e-08)
+    ATOL = "(nfrac ROps (%d) (%d))" % (atol.numerator, atol.denominator)
+    K("index_of_vertex", {"v": [V3[0], V3[1], V3[1], V3[2]], "p": V3[1]}, lambda v, p: Polyline(v, is_closed=True).index_of_vertex(p),
+      "Lemma {T}_ok : forall {vars} : R, {T}_path ROps {vars} ->\n"
+      "  c_index_of_at ROps %s %s (V3 p0 p1 p2) = Ok 1%%nat /\\ Rabs (%s - atol8 ROps) <= 1 / 100000000000000000000.\n"
+      "Proof. intros {vars} Hpath. unfold {T}_path in Hpath. unfold nfrac in *. rops. path_facts Hpath.\n"
+      "  rewrite ?Rminus_0_r in *. split.\n"
+      "  - cbv [c_index_of_at pv map vclose vx vy vz flatnonzero]; unfold nfrac; rops.\n"
+      "    %s.\n    reflexivity.\n"
+      "  - unfold atol8, nfrac; rops. apply Rabs_le. lra. Qed." % (ATOL, P4c, ATOL, decide), 1, perturb=1e-12)
+    return ks
 
 
 # ---------------------------------------------------------------------------------------------------------
